@@ -121,7 +121,9 @@ def check_stream_reassembly(ctx: Ctx, prefix: str) -> None:
         writers = sorted({fi.short for fi in repo.scan_funcs() for x in repo.own_nodes(fi)
                           if isinstance(x, ast.Attribute) and x.attr == "_buffer" and isinstance(x.ctx, ast.Store) and fi.module.name == GB})
         ob.site(fr, None, "_buffer is written only by read() (and initialised in __init__)", writers=writers)
-        if writers != ["ChannelFileRead.__init__", "ChannelFileRead.read"]:
+        cls_default = any(isinstance(st_, (ast.Assign, ast.AnnAssign)) and unparse(st_.targets[0] if isinstance(st_, ast.Assign) else st_.target) == "_buffer"
+                          and isinstance(st_.value, ast.Constant) and st_.value.value is None for st_ in repo.cls("ChannelFileRead").node.body)
+        if writers != ["ChannelFileRead.__init__", "ChannelFileRead.read"] and not (writers == ["ChannelFileRead.read"] and cls_default):
             ob.violation(fr, fr.node, f"ChannelFileRead._buffer is written by {writers}", construct=f"writers {writers}")
         frl = repo.func(f"{GB}.ChannelFileRead.readline")
         for x in repo.own_nodes(frl):
@@ -215,11 +217,8 @@ def check(ctx: Ctx) -> None:
                         ok = True
                         what = "continuation step read(1)"
                         bad = ""
-                        if in_loop:
-                            # only while the line so far is non-empty and does not end in a newline
-                            hv = [t for t in set(subterms(tuple(c for (c, _v) in cond))) if t[0] == "havoc" and "." not in str(t[2])]
-                            ok = any(implies(cond, ("and", L, ("cmp", "ne", ("idx", L, const(-1)), NL))) for L in hv)
-                            bad = "readline's continuation loop does not stop at the first newline"
+                        # (inside a loop: only while the line so far is non-empty and does not end in a newline --
+                        #  established below as an inductive invariant of that loop)
                     else:
                         ok = False
                         what = "read() call of readline"
@@ -260,6 +259,71 @@ def check(ctx: Ctx) -> None:
                 reads = [e.result for e in st.events if e.kind == "call" and e.callee == "self.read" and any(h in [x for (x, _l) in p] and [x for (x, _l) in p].index(h) < [x for (x, _l) in p].index(e.nid) for h in heads)]
                 if reads and tv(reads[-1], st.known) is not True:
                     ob.violation(frl, frl.node, "readline does not stop at EOF")
+        # continuation loops: `line is non-empty and does not end in a newline` is an inductive invariant of every loop
+        # that reads further characters (so the loop never reads past a newline and never continues an empty line)
+        from ..terms import State as _State
+
+        def inv(L):
+            return ("and", L, ("cmp", "ne", ("idx", L, const(-1)), NL))
+        for h in sorted(heads):
+            hn = cl.nodes[h]
+            body_reads = [c for b in hn.owner.body for c in ast.walk(b) if isinstance(c, ast.Call) and callee_attr(c) == "read"]
+            if not body_reads or not evl.has_back_edge(hn):
+                continue  # (a one-trip wrapper left by helper inlining is not a loop)
+            names = {t.id for b in hn.owner.body for x in ast.walk(b) if isinstance(x, (ast.Assign, ast.AugAssign)) for t in (x.targets if isinstance(x, ast.Assign) else [x.target])
+                     if isinstance(t, ast.Name)}
+            acc = set()
+            for (p, st) in paths:
+                for e in st.events:
+                    if e.kind == "assign" and e.target in names and e.value[0] == "bin" and e.value[1] == "Add" and _is_read(e.value[3]) and e.old is not None and e.value[2] == e.old:
+                        acc.add(e.target)
+            if len(acc) != 1:
+                ob.violation(frl, hn.owner, "readline's continuation loop does not accumulate the characters it reads into one line")
+                continue
+            v = acc.pop()
+            L = ("havoc", h, v)
+            base_ok = step_ok = True
+            nbase = nstep = 0
+            for (p, st) in evl.run(stops={h}, limit=20000):
+                if p[-1][0] != h:
+                    continue
+                nbase += 1
+                cur = st.env.get(v)
+                if cur is None or implies(st.cond, inv(cur)) is not True:
+                    # entering the loop is fine if its own test establishes the invariant
+                    t_ = evl.term(hn.ast, st, False) if hn.kind == "test" else None
+                    if t_ is None or implies(list(st.cond) + [(t_, True)], inv(cur if cur is not None else ("sym", v))) is not True:
+                        base_ok = False
+            init = _State()
+            for (p, st) in evl.run(start=h, init=init, back_stops={h}, limit=20000):
+                if p[-1][0] != h or len(p) < 2:
+                    continue
+                nstep += 1
+                cur = st.env.get(v)
+                assumed = list(st.cond) + [(inv(L), True)]
+                if cur is None:
+                    step_ok = False
+                    continue
+                t_ = evl.term(hn.ast, st, False) if hn.kind == "test" else None
+                nxt = assumed + ([(t_, True)] if t_ is not None else [])
+                if implies(nxt, inv(cur)) is not True:
+                    step_ok = False
+            # alternatively every read of the loop is preceded, in its own iteration, by tests establishing the same thing
+            direct_ok = True
+            ndirect = 0
+            for (p, st) in evl.run(start=h, init=_State(), back_stops={h}, limit=20000):
+                for e in st.events:
+                    if e.kind == "call" and e.callee == "self.read" and any(e.node is c for c in body_reads):
+                        ndirect += 1
+                        prev = [x.value for x in st.events[:st.events.index(e)] if x.kind == "assign" and x.target == v]
+                        cur = prev[-1] if prev else L
+                        if implies(st.cond[:e.ncond], inv(cur)) is not True:
+                            direct_ok = False
+            direct_ok = direct_ok and ndirect > 0
+            ob.site(frl, hn.owner, "continuation loop reads on only while the line is non-empty and does not end in a newline",
+                    entry_paths=nbase, iteration_paths=nstep, invariant_base=base_ok, invariant_step=step_ok, tested_before_each_read=direct_ok)
+            if not (direct_ok or (base_ok and step_ok and nbase and nstep)):
+                ob.violation(frl, hn.owner, "readline's continuation loop does not stop at the first newline")
         ob.site(frl, frl.node, "readline returns through the first buffered newline (read(i + 1)) or character-wise", through_newline_paths=through_nl)
 
     with ctx.obligation("C19.e", "write-side") as ob:
